@@ -2,7 +2,7 @@
    only produces trees to which that applies, and every control transfer of a linked program stays
    inside the program (statements in Proofs/StaticStmt.v). *)
 From Coq Require Import NArith ZArith List Bool Lia ZifyBool ZifyN ZifyNat.
-From Lug Require Import Gen.Consts Gen.UcdTables Ucd.Lookup Ucd.RuneSet VM.Instr Lang.Expr Lang.Elab Lang.Codegen Lang.Link Lang.Lower.
+From Lug Require Import Gen.Consts Gen.UcdTables Ucd.Lookup Ucd.RuneSet VM.Instr Lang.Expr Lang.Elab Lang.Bre Lang.Codegen Lang.Link Lang.Lower.
 From Lug Require Import Proofs.StaticStmt Proofs.LinkStmt Proofs.LinkProofs.
 Import ListNotations.
 Local Open Scope Z_scope.
@@ -125,7 +125,7 @@ Ltac sub_block IH := apply closed_at_shift; [exact IH | lia | lia].
 Theorem cg_closed_simple : forall p, simple p -> closed_code (cg p).
 Proof.
   induction p as [ |i|a IHa b IHb|a IHa b IHb|a IHa|a IHa|a IHa| |n m a IHa|r prec mode|r body IHb|sp IHs
-                 |pre a IHa post|r mode a IHa|rec IHr a IHa|l r mode|l rec IHr];
+                 |pre a IHa post|r mode a IHa|rec IHr a IHa|l r mode|l rec IHr|a IHa];
     intros Hs; cbn [simple] in Hs; cbn [cg].
   - intros k t x Hk. destruct k; discriminate.
   - apply closed_code_at. apply closed_at_cons; [apply leaf_ok; exact Hs|apply closed_at_nil].
@@ -199,6 +199,13 @@ Proof.
     apply closed_at_cons; [explicit_instr|].
     apply closed_at_app; [sub_block IHr|].
     apply closed_at_cons; [explicit_instr|apply closed_at_nil].
+  - specialize (IHa Hs). pose proof (len_nonneg (cg a)).
+    apply closed_code_at. lens.
+    apply closed_at_cons; [explicit_instr|].
+    apply closed_at_app; [sub_block IHa|].
+    apply closed_at_cons; [explicit_instr|].
+    apply closed_at_cons; [explicit_instr|].
+    apply closed_at_cons; [explicit_instr|apply closed_at_nil].
 Qed.
 
 (* ---- elaboration only produces simple trees ---- *)
@@ -214,6 +221,48 @@ Proof. intros st p st' H. discriminate. Qed.
 
 Lemma seqp_simple a b : simple a -> simple b -> simple (seqp a b).
 Proof. intros Ha Hb. destruct a; try exact Hb; destruct b; try exact Ha; cbn [seqp simple]; split; assumption. Qed.
+
+(* ---- the bre compiler only produces simple trees ---- *)
+
+Lemma gen_match_simple ucd caseless s p : gen_match ucd caseless s = OK p -> simple p.
+Proof. unfold gen_match. intros H. brk H; inversion H; subst; reflexivity. Qed.
+
+Lemma bracket_commit_simple neg st : simple (bracket_commit neg st).
+Proof.
+  unfold bracket_commit. cbv zeta.
+  repeat match goal with
+         | |- context [if ?c then _ else _] => destruct c
+         end; cbn [seqp simple]; repeat split; reflexivity || exact I.
+Qed.
+
+Lemma gen_item_simple ucd caseless it p : gen_item ucd caseless it = OK p -> simple p.
+Proof.
+  destruct it as [|t|neg es]; cbn [gen_item]; intros H.
+  - inversion H; subst. reflexivity.
+  - exact (gen_match_simple _ _ _ _ H).
+  - destruct (apply_elems ucd caseless _ es) as [st|w]; [|discriminate].
+    inversion H; subst. apply bracket_commit_simple.
+Qed.
+
+Lemma gen_items_simple ucd caseless : forall its p, gen_items ucd caseless its = OK p -> simple p.
+Proof.
+  induction its as [|it r IH]; intros p H; cbn [gen_items] in H.
+  - inversion H; subst. exact I.
+  - destruct (gen_item ucd caseless it) as [a|w] eqn:Ha.
+    + destruct (gen_items ucd caseless r) as [b|w] eqn:Hb; [|discriminate].
+      inversion H; subst. apply seqp_simple; [exact (gen_item_simple _ _ _ _ Ha)|exact (IH _ eq_refl)].
+    + destruct (gen_items ucd caseless r); discriminate.
+Qed.
+
+Lemma compile_bre_simple ucd caseless pattern p c : compile_bre ucd caseless pattern = OK (p, c) -> simple p.
+Proof.
+  unfold compile_bre. intros H.
+  destruct (parse_bre pattern) as [its|]; [|discriminate].
+  destruct its as [|it r].
+  - inversion H; subst. reflexivity.
+  - destruct (gen_items ucd caseless (it :: r)) as [q|w] eqn:Hq; [|discriminate].
+    inversion H; subst. exact (gen_items_simple _ _ _ _ Hq).
+Qed.
 
 Section ElabSimple.
 Variable ucd : ucd_table.
@@ -259,6 +308,9 @@ Proof.
     try (apply elab_range_simple in H; exact H);
     try (apply elab_call_simple in H; exact H);
     unfold bind2 in H; brk H; use_skip;
+    repeat match goal with
+           | Hx : compile_bre _ _ _ = OK (_, _) |- _ => apply compile_bre_simple in Hx
+           end;
     repeat match goal with
            | IH : (forall st p st', elab _ _ _ _ ?a st = OK (p, st') -> simple p), Hx : elab _ _ _ _ ?a _ = OK (_, _) |- _ => apply IH in Hx
            end;
